@@ -4,7 +4,7 @@ record the outcome in seeded/<name>/detection.json and regenerate seeded/README.
 import json, subprocess, sys, re
 from pathlib import Path
 
-V = Path("/verif")
+V = Path(__file__).resolve().parent
 
 
 def main():
